@@ -325,10 +325,16 @@ func drawC10(t *rapid.T, cli bool) C10Case {
 	m := rapid.IntRange(1, 12).Draw(t, "m")
 	d.Date = ref.FromCivil(y, m, rapid.IntRange(1, ref.DaysIn(y, m)).Draw(t, "d"))
 	booking := rapid.Custom(func(t *rapid.T) ref.Booking {
+		q := gen.DrawQty(t, rapid.SampledFrom([]int{1, 2, 4, 8, 12}).Draw(t, "maxDec"), true)
+		if rapid.IntRange(0, 24).Draw(t, "wideQty") == 0 {
+			// 19 and more significant digits (18-decimal token amounts, totals beyond 2^63)
+			q = rapid.SampledFrom([]string{"9.223372036854775807", "9.223372036854775808", "12.345678901234567891", "-12.345678901234567891",
+				"922337.2036854775808", "18446744073709551616", "9223372036854775808", "123456789012345678901234.5", "0.00000000000000000001"}).Draw(t, "wideQtyV")
+		}
 		return ref.Booking{
 			Credit: rapid.SampledFrom(pool).Draw(t, "credit"),
 			Debit:  rapid.SampledFrom(pool).Draw(t, "debit"),
-			Qty:    gen.DrawQty(t, rapid.SampledFrom([]int{1, 2, 4, 8, 12}).Draw(t, "maxDec"), true),
+			Qty:    q,
 			Com:    rapid.SampledFrom([]string{"CHF", "USD", "AAPL"}).Draw(t, "com"),
 		}
 	})
@@ -344,7 +350,19 @@ func drawC10(t *rapid.T, cli bool) C10Case {
 		start = ref.FromCivil(sy, sm, 1)
 	}
 	length := rapid.SampledFrom([]int{0, 1, 6, 13, 27, 30, 58, 89, 120, 364, 365, 730, 1200}).Draw(t, "len") + rapid.IntRange(0, 3).Draw(t, "lenOff")
-	if iv == "daily" && length > 100 {
+	long := gen.Rare(t, "longWindow", 5)
+	if long {
+		// more than a thousand periods: a daily accrual over three to six years, a weekly one over twenty
+		if iv != "daily" && iv != "weekly" {
+			iv = "daily"
+		}
+		if iv == "daily" {
+			length = rapid.IntRange(990, 2200).Draw(t, "longDays")
+		} else {
+			length = rapid.IntRange(6900, 7700).Draw(t, "longWeeks")
+		}
+	}
+	if iv == "daily" && length > 100 && !long {
 		length = length % 100
 	}
 	d.Accrual = &ref.Accrual{Interval: iv, Start: start, End: start + ref.Day(length), Account: accr}
